@@ -768,7 +768,7 @@ func (t *tr) items(stmts []ast.Stmt) string {
 
 func main() {
 	if len(os.Args) < 3 {
-		fmt.Fprintln(os.Stderr, "usage: gox <repo> <GoFns.v> [<SrcText.v> [<srctext.json> [<GoData.v>]]]")
+		fmt.Fprintln(os.Stderr, "usage: gox <repo> <GoFns.v> [<SrcText.v> [<srctext.json> [<GoData.v> [<GoGrad.v> [<GoWrap.v> [<GoComp.v>]]]]]]")
 		os.Exit(2)
 	}
 	repo, out := os.Args[1], os.Args[2]
@@ -778,6 +778,18 @@ func main() {
 			js = os.Args[4]
 		}
 		if err := emitSrcText(repo, os.Args[3], js); err != nil {
+			fmt.Fprintln(os.Stderr, "gox:", err)
+			os.Exit(1)
+		}
+	}
+	if len(os.Args) >= 9 {
+		if err := emitComp(repo, os.Args[8]); err != nil {
+			fmt.Fprintln(os.Stderr, "gox:", err)
+			os.Exit(1)
+		}
+	}
+	if len(os.Args) >= 8 {
+		if err := emitWrap(repo, os.Args[7]); err != nil {
 			fmt.Fprintln(os.Stderr, "gox:", err)
 			os.Exit(1)
 		}
